@@ -40,7 +40,8 @@ StartStep(R, mr) ==
                 \cup {[kind |-> "Recompute", ts |-> r, id |-> 100 + r] : r \in R}
     /\ pc' = "SIdle"
     /\ hist' = Log([a |-> "start", sess |-> sess, recomp |-> R, volt |-> Volt, T |-> T,
-                    mr |-> mr, ns |-> NS, vl |-> VL, menu |-> Menu])
+                    mr |-> mr, ns |-> NS, vl |-> VL, menu |-> Menu, kindtab |-> KindTab,
+                    accepts |-> [k \in DOMAIN KindDefs |-> MenuAcceptedBy(k, Menu)]])
     /\ UNCHANGED <<sess, t, resolve, lastUpd, batch, occ, evsePilot, pilots, dE, evE, chg,
                    lastE, peakN, evHist, seen, schedHist, sigma, ghost>>
 
